@@ -429,11 +429,15 @@ pub fn parse_multiline_text(
     max_lines: usize,
     max_line_length: usize,
 ) -> Result<Vec<String>, ParseError> {
-    let lines: Vec<String> = input
-        .lines()
-        .map(|s| s.to_string())
-        .filter(|s| !s.is_empty())
-        .collect();
+    let lines: Vec<String> = input.lines().map(|s| s.to_string()).collect();
+
+    // An empty line inside the text is not part of the format (35x needs at least one
+    // character); dropping it silently would change the text on the way out
+    if let Some(i) = lines.iter().position(|s| s.is_empty()) {
+        return Err(ParseError::InvalidFormat {
+            message: format!("Line {} must not be empty", i + 1),
+        });
+    }
 
     if lines.len() > max_lines {
         return Err(ParseError::InvalidFormat {
